@@ -13,7 +13,7 @@
 From Coq Require Import String Ascii.
 From Coq Require Import ZArith List Bool Lia QArith.
 From Coq Require Import Permutation.
-From Segno Require Import Base.PyLite Ref.IsoData Model.Iter Model.Color Model.Svg Ref.SvgReader.
+From Segno Require Import Base.PyLite Base.PyCase Ref.IsoData Model.Iter Model.Color Model.Svg Ref.SvgReader.
 From Segno Require Lemmas.IterLemmas.
 Import ListNotations.
 Open Scope Z_scope.
@@ -1190,7 +1190,7 @@ Qed.
 Lemma rgba_range c l : color_to_rgba c true = Ok l -> rng3 l.
 Proof.
   unfold color_to_rgba. destruct c as [s|parts].
-  - destruct (assoc_str (lower s) NAME2RGB) as [[[r g] b]|] eqn:En.
+  - destruct (assoc_str (py_lower s) NAME2RGB) as [[[r g] b]|] eqn:En.
     + intros H; inversion H; subst. apply assoc_str_In in En. destruct En as (k' & Hin).
       pose proof name_table_range as F. rewrite forallb_forall in F. specialize (F _ Hin). cbn [snd] in F.
       repeat (apply andb_true_iff in F; destruct F as [F ?]).
